@@ -3,8 +3,8 @@ at every invocation index, unencodable structures: starved decodes at every pref
 walker corruptions)."""
 from tools import common, corpus
 from checks import base
-from gen import features
-from ref import asn1ast as A
+from gen import features, invalid
+from ref import asn1ast as A, ber, uper, oer
 
 
 def run_with_skips(exe, line, maxskip=40):
@@ -69,13 +69,57 @@ def make_worker(tier):
                                 o.v(b, c, kind, syn, x, value=v, cmd=cmdline[:3000], observed=r.line[:800], feats=fl, extra=dict(ref_der=d.hex()))
                     if len(o.samples) < 1 and mode == 'valid':
                         o.samples.append(dict(type=A.type_text(b.mod, t, 0)[:200], value=repr(v)[:120], cmd=cmdline[:120], result=r.line[:160]))
+        # values that violate one constraint (gen/invalid.py) and that the reference PER / OER encoder cannot represent at all (the
+        # constraint is PER-visible and not extensible): the encoder must answer -1, not a positive size
+        lines, meta = [], []
+        for c in b.cases:
+            if c.family == 'S6' and c.label.startswith('long/'):
+                continue
+            t = b.mod.types[c.name]
+            try:
+                cands = invalid.one_violation(b.mod, t)
+            except Exception:
+                continue
+            seen = set()
+            for v, what, path in cands[:40]:
+                try:
+                    d = ber.der(b.mod, t, v)
+                    if invalid.valid(b.mod, t, v) is not False or d in seen or len(d) > 2000:
+                        continue
+                except Exception:
+                    continue
+                seen.add(d)
+                for syn, fn in (('uper', uper.encode), ('oer', oer.encode)):
+                    try:
+                        fn(b.mod, t, v)
+                        continue                        # representable in this syntax (constraint not visible there): no verdict
+                    except (ValueError, OverflowError, AssertionError, KeyError, IndexError):
+                        pass
+                    except Exception:
+                        continue
+                    lines.append('enc %s %s %s' % (c.name, syn, d.hex())); meta.append((c, v, d, syn, what))
+        res = common.run_driver(b.exe, lines, watchdog=20)
+        for (c, v, d, syn, what), r, line in zip(meta, res, lines):
+            o.stats['evaluations'] += 1
+            o.stats['unencodable_values'] += 1
+            try:
+                fl = sorted(features.features(b.mod, b.mod.types[c.name], v))
+            except Exception:
+                fl = ['k:' + b.mod.resolve(b.mod.types[c.name]).kind]
+            if r.crash is not None:
+                o.v(b, c, 'crash', syn, r.crash[-1500:], value=v, cmd=line[:3000], observed=r.crash[-800:], feats=fl, extra=dict(violation=what))
+                continue
+            if ' out=' in r.line and ' out=E' not in r.line and 'decode' not in r.line.split(' out=')[0]:
+                o.v(b, c, 'unencodable_value_encoded', syn, 'constraint violation "%s": the reference encoder cannot represent the value, %s returned %s' % (what, syn, r.line.split(' out=')[1][:80]),
+                    value=v, cmd=line[:3000], observed=r.line[:400], feats=fl, extra=dict(violation=what, ref_der=d.hex()[:400]))
+                o.viol[-1][0]['violation'] = what.split(':')[0]
         return o
     return worker
 
 
 def run(args):
     chk = common.Check('C07', 'fault_enumeration', args.tier)
-    fams = base.families_for(args.tier, args.families, quick=('S0', 'S1', 'S5'), thorough=('S0', 'S1', 'S2', 'S4', 'S5'))
+    fams = base.families_for(args.tier, args.families, quick=('S0', 'S1', 'S2', 'S4', 'S5'), thorough=('S0', 'S1', 'S2', 'S4', 'S5'))
     stats, distinct, samples = base.run_sweep(chk, args, make_worker(args.tier), fams=fams, shape_tier='quick')
     cov = dict(evaluations=stats['evaluations'], distinct_nontrivial=len(distinct), faults_fired=stats['fired'],
                rule='for the typical (thorough: also first/last) value of every type of families %s and each of the 5 encoders: counting callback vs reported size; '
